@@ -311,12 +311,8 @@ def rank_flow(ctx):
            ctx.loc(fi), sample='_should_compress(compression_rank, padding_start)')
     name = '_fd_update_root' if fd else '_low_rank_root'
     kwname = 'rank' if fd else 'compression_rank'
-    parts = [x for x in walk(r) if x.op == 'call' and x.args[0].op == 'fn' and x.args[0].args[0].endswith('.' + name)]
-    ok = False
-    for x in parts:
-      kw = dict(x.args[2])
-      if kw.get(kwname) is cr:
-        ok = True
+    recs = [rc for rc in ev.calls if rc.callee.endswith('.' + name) and rc.args is not None]
+    ok = bool(recs) and all(rc.args.get(kwname) is cr for rc in recs)
     ctx.ob('C10.R2', fi.short, f'{name}({kwname}=compression_rank) [fd={fd}]', ok,
            f'{name} must receive the configured (signed) compression_rank: a negative rank selects the smallest eigen-directions', ctx.loc(fi),
            sample=f'{name}({kwname}=compression_rank)')
